@@ -34,21 +34,30 @@ Proof. apply forallb_forall. vm_compute. reflexivity. Qed.
 Lemma package_methods_reviewed : forall m, In m pkg_var_methods -> method_reviewed m = true.
 Proof. apply forallb_forall. vm_compute. reflexivity. Qed.
 
-(* every write through a syntax-tree / registry / bundle typed value in soyhtml, soyjs and template is
-   Registry.Add building the registry under compilation, or a capped append *)
+(* every write through a syntax-tree / registry / bundle typed value in soyhtml, soyjs and template,
+   directly or in a callee of any package, is Registry.Add building the registry under compilation, a
+   capped append, or the reviewed latent hazard (the queue of ast.MsgNode.Placeholder) *)
 Lemma shared_type_writes_benign : forall w, In w shared_type_writes -> shared_write_benign w = true.
 Proof. apply forallb_forall. vm_compute. reflexivity. Qed.
 
-(* the JavaScript generator contains no statement that writes through such a value *)
-Lemma soyjs_never_writes_through_shared_types : filter (in_pkg k_soyjs) shared_type_writes = [].
-Proof. vm_compute. reflexivity. Qed.
+(* (That the reviewed latent hazard is still in the sources is NOT an obligation: the repair proposed in
+   notes/pending/C09-placeholder-queue-private.diff removes it, and a repaired tree must pass.  The harness
+   reports the difference from bin/c09_pkgstate_reviewed.json in the evidence, which is the reminder to
+   delete the exception from Model/ConcGlobals.v.) *)
 
-(* the renderer: nothing but capped appends *)
+(* the JavaScript generator contains no statement that writes through such a value, the reviewed latent
+   hazard excepted *)
+Lemma soyjs_never_writes_through_shared_types :
+  forall w, In w (filter (in_pkg k_soyjs) shared_type_writes) -> reviewed_latent w = true.
+Proof. apply forallb_forall. vm_compute. reflexivity. Qed.
+
+(* the renderer: nothing but capped appends, the reviewed latent hazard excepted *)
 Lemma soyhtml_writes_through_shared_types_only_capped :
-  forall w, In w (filter (in_pkg k_soyhtml) shared_type_writes) -> kind_of_write w = k_capped.
+  forall w, In w (filter (in_pkg k_soyhtml) shared_type_writes) -> kind_of_write w = k_capped \/ reviewed_latent w = true.
 Proof.
   intros w Hin.
-  assert (H : forallb (fun w => bstr_eqb (kind_of_write w) k_capped) (filter (in_pkg k_soyhtml) shared_type_writes) = true)
+  assert (H : forallb (fun w => bstr_eqb (kind_of_write w) k_capped || reviewed_latent w) (filter (in_pkg k_soyhtml) shared_type_writes) = true)
     by (vm_compute; reflexivity).
-  rewrite forallb_forall in H. apply bstr_eqb_to_eq. apply H. exact Hin.
+  rewrite forallb_forall in H. apply H in Hin. apply orb_true_iff in Hin.
+  destruct Hin as [Hk|Hr]; [left; apply bstr_eqb_to_eq; exact Hk|right; exact Hr].
 Qed.
